@@ -119,9 +119,9 @@ def run_c18(rep, tier, seed):
     import cspuz.generator.segmentation as seg
     from pyvc.runner import write_replay
     rnd = random.Random(seed)
-    boards = [(1, 1), (1, 2), (2, 1), (1, 3), (1, 4), (2, 2), (2, 3), (3, 2)]
+    boards = [(1, 1), (1, 2), (2, 1), (1, 3), (1, 4), (2, 2), (2, 3), (3, 2), (2, 4), (4, 2)]
     if tier != "quick":
-        boards += [(1, 6), (3, 1), (2, 4), (3, 3)]
+        boards += [(1, 6), (3, 1), (3, 3), (2, 5), (5, 2)]
 
     def viol(kind, detail, payload):
         payload = dict(engine="segmentation", property="C18", kind=kind, detail=detail, **payload)
@@ -223,7 +223,9 @@ def run_c18(rep, tier, seed):
                         _unpatch(seg, saved)
                     rep.evaluations += 1
     # random walks on larger boards
-    walks = [(4, 4, 200), (5, 5, 300)] if tier == "quick" else [(4, 4, 2000), (5, 5, 2000), (6, 6, 2000), (3, 7, 1000)]
+    # square and (strongly) non-square boards: width >= height + 2 and height >= width + 2 included
+    walks = [(4, 4, 200), (5, 5, 300), (2, 6, 150), (6, 2, 150), (3, 7, 150), (7, 3, 150)] if tier == "quick" else \
+        [(4, 4, 2000), (5, 5, 2000), (6, 6, 2000), (3, 7, 1000), (7, 3, 1000), (2, 9, 1000), (9, 2, 1000), (4, 8, 1000)]
     for (h, w, steps) in walks:
         for cfgargs in (dict(), dict(min_block_size=2, max_block_size=5), dict(min_num_blocks=3, max_num_blocks=6)):
             cfg = cfg_of(h, w, cfgargs.get("min_num_blocks"), cfgargs.get("max_num_blocks"), cfgargs.get("min_block_size"), cfgargs.get("max_block_size"))
@@ -240,6 +242,16 @@ def run_c18(rep, tier, seed):
                     if not cands:
                         break
                     snap = copy.deepcopy(cur)
+                    if i % 5 == 0:
+                        # every update proposed from this state, not only the one the walk follows
+                        for u in cands:
+                            alt = b.copy_with_update(cur, u)
+                            e = partition_ok(h, w, alt) or bounds_ok(cfg, alt)
+                            rep.evaluations += 1
+                            if e:
+                                kind = "update-invalid:" + ("bounds" if "outside" in e else ("connectivity" if "connected" in e else "partition"))
+                                viol(kind, e + " (walk)", dict(board=[h, w], cfg=cfg["args"], cur=snap, update=u, result=alt))
+                                break
                     nxt = b.copy_with_update(cur, rnd.choice(cands))
                     if cur != snap:
                         viol("update-mutates-input", "copy_with_update changed the value it was applied to (walk)", dict(board=[h, w], step=i))
